@@ -275,8 +275,29 @@ __CPROVER_ensures (gk == __CPROVER_old (gk) && V_WFF_AT (r, gk) && V_PTR (r) == 
             w = dict(v); w['name'] = v['name'] + '_' + tag
             w['harness'] = v['harness'].replace('BRANCHSEL', cond).replace('h_' + v['name'] + ' (void)', 'h_' + w['name'] + ' (void)')
             w['replace'] = {'p1': [], 'p2': ['__gmpn_lshift'], 'p3': ['__gmpn_rshift']}[tag]      # the other shift is unreachable in this partition (body-less: CBMC asserts it is never called)
+            if v['name'].endswith('_ru') and tag != 'p1': w['mem_limit_gb'] = 30; w['tier'] = 'thorough'      # r == u: CBMC's propositional reduction needs > 14 GB
             w['selftest'] = [m for m in v.get('selftest', []) if (tag == 'p2' and 'adj = cy_limb' in m[1]) or (tag == 'p3' and 'adj = cy_limb' not in m[1] and 'uexp - exp' not in m[1]) or (tag == 'p2' and 'uexp - exp' in m[1])]
             out.append(w)
     return out
 UNITS.extend(_f2exp('mul'))
 UNITS.extend(_f2exp('div'))
+
+# ------------------------------------------------------------------ mpf_set_z: the integer's top min(un, prec+1) limbs, exponent = its limb count
+from c04_alloc import mpz_obj
+UNITS.append(dict(name='mpf_set_z', props=['C13', 'C04', 'C15'], source='mpf/set_z.c', contracts=CT,
+    contract_text='''void __gmpf_set_z (mpf_ptr r, mpz_srcptr u)
+__CPROVER_requires (V_WFF (r) && V_WF (u) && V_GHOSTS_OK)
+__CPROVER_assigns (r->_mp_size, r->_mp_exp, __CPROVER_object_whole (V_PTR (r)))
+__CPROVER_ensures (V_WFF_AT (r, gk) && V_PTR (r) == __CPROVER_old (V_PTR (r)) && V_PREC (r) == __CPROVER_old (V_PREC (r)));
+''', enforce=['__gmpf_set_z'],
+    functions={'__gmpf_set_z': dict(loops={0: copy_loop('gk', 'incr')})},
+    harness='void h_mpf_set_z (void) {\n%s%s  mpf_ptr r = &R; mpz_srcptr u = &U;\n' % (mpf_obj('R'), mpz_obj('U')) + '''  gk = nondet_long (); gj = nondet_long (); gh = nondet_long ();
+  __CPROVER_assume (V_GHOSTS_OK && V_WFF (r) && V_WF (u));
+  long su = V_SIZ (u), un = V_ABS (su), pr = V_PREC (r) + 1, rn = un < pr ? un : pr;
+  mp_limb_t Uk = gk < rn ? V_PTR (u)[gk + (un - rn)] : 0;
+  __gmpf_set_z (r, u);
+  __CPROVER_assert ((long) V_SIZ (r) == (su >= 0 ? rn : -rn) && V_EXP (r) == un, "[C13] set_z: min(un, prec+1) limbs, sign of u, exponent = limb count of u (exact when u fits the precision)");
+  __CPROVER_assert (gk < rn ==> V_PTR (r)[gk] == Uk, "[C13] limb gk of r is limb gk of the TOP rn limbs of u");
+  __CPROVER_assert ((long) V_SIZ (u) == su && (gk < rn ==> V_PTR (u)[gk + (un - rn)] == Uk), "[C05] source unchanged");
+}''', timeout=600,
+    selftest=[('__gmpf_set_z', r'up \+= asize - prec;', ';'), ('__gmpf_set_z', r'\(\(r\)->_mp_exp\) = asize;', '((r)->_mp_exp) = asize - 1;')]))
